@@ -59,6 +59,8 @@ static __thread int interest_next = 0;
 static vomp_chooser chooser = NULL;
 static void* chooser_user = NULL;
 static void (*deadlock_handler)(void) = NULL;
+static vomp_observer observer = NULL;
+static void* observer_user = NULL;
 static vomp_stats_t stats;
 
 /* serial work-share stack (outside teams / nested regions) */
@@ -68,6 +70,7 @@ static __thread int serial_depth = 0; /* >0: inside a serialised region started 
 
 vomp_stats_t* vomp_stats(void) { return &stats; }
 void vomp_set_chooser(vomp_chooser c, void* user) { chooser = c; chooser_user = user; }
+void vomp_set_observer(vomp_observer o, void* user) { observer = o; observer_user = user; }
 void vomp_set_team_size(int n) { team_size = n < 1 ? 1 : (n > MAXT ? MAXT : n); }
 void vomp_set_all_regions(int on) { all_regions = on; }
 void vomp_region_of_interest(void) { if (!cur) interest_next = 1; }
@@ -145,6 +148,11 @@ static void sched(int kind, const char* site, const void* obj, int leaving /* 1:
         }
     }
   const int next = enabled[choice];
+  if (observer)
+    {
+      vomp_point p = { me->id, kind, site, obj, n, me_enabled };
+      observer(observer_user, &p, next);
+    }
   if (next != me->id)
     {
       wake(&t->th[next]);
